@@ -65,12 +65,13 @@ Inductive owner :=
 | OSrvNew     (* server: stream input just resolved, not yet `prev_input` *)
 | OSrvIn      (* server: `prev_input` *)
 | OCliTmp     (* client: unary result being read / a batch met while draining *)
+| OCliNow     (* client: stream output the caller releases as soon as it has read it *)
 | OHeld       (* client: stream output handed to the caller together with its release function *)
 | OLost.      (* nobody: the release function was discarded *)
 
 Definition owner_eqb (a b : owner) : bool :=
   match a, b with
-  | OSrvReq, OSrvReq | OSrvNew, OSrvNew | OSrvIn, OSrvIn | OCliTmp, OCliTmp | OHeld, OHeld | OLost, OLost => true
+  | OSrvReq, OSrvReq | OSrvNew, OSrvNew | OSrvIn, OSrvIn | OCliTmp, OCliTmp | OCliNow, OCliNow | OHeld, OHeld | OLost, OLost => true
   | _, _ => false
   end.
 
@@ -86,7 +87,7 @@ Inductive event := EvDeliver (dst : owner) (id : N).
 Inductive mop :=
 | MSend (dst : owner) (b : batch) (deliver : bool)   (* sender: maybe_write; receiver resolves (deliver: the result reaches its consumer) *)
 | MFree (o : owner)                                  (* call every release function held under o *)
-| MFreeHeld (i : nat)                                (* the caller releases the i-th batch it holds (newest first) *)
+| MFreeHeld (i : nat)                                (* the caller releases the i-th shm-backed batch it holds (newest first) *)
 | MRetag (o o' : owner).                             (* pointers held under o are now held under o' *)
 
 Definition free1 (t : table) (off : N) : table * N :=
@@ -155,7 +156,8 @@ Inductive call :=
      (* req = Some b: a client that offers the request batch to shm (the Python client never does);
         exclog: the method logs at EXCEPTION level before returning; res = None: the method raises *)
 | CStream (steps : list sstep)          (* the turns the client drives, then close()/cancel() *)
-| CRelease (i : nat).                   (* the caller releases the i-th batch it still holds *)
+| CRelease (i : nat).                   (* the caller releases the i-th shm-backed batch it still holds
+                                           (release() of a batch that arrived inline does nothing) *)
 
 (* source shapes (regenerated by translate/t_c29_src.py):
    f_coerce : _serve_stream releases the freshly resolved input when _coerce_input_batch raises
@@ -183,7 +185,7 @@ Definition compile_sstep (f : flags) (s : sstep) : list mop * bool :=
             (* client: RpcError at the log batch -> close(): input EOS, server releases prev_input,
                the drain meets the data batch *)
             (recv ++ [MSend OCliTmp b false; MFree OSrvIn; discard (f_sdrain f) OCliTmp], false)
-          else (recv ++ [MSend OHeld b true] ++ (if ss_rel s then [MFreeHeld 0] else []), true)
+          else (recv ++ (if ss_rel s then [MSend OCliNow b true; MFree OCliNow] else [MSend OHeld b true]), true)
       end
   end.
 
@@ -243,7 +245,8 @@ Definition call_unary_exclog (c : call) : bool :=
 Definition ev_code (e : event) : N * N :=
   match e with
   | EvDeliver OSrvReq id => (0, id) | EvDeliver OSrvNew id => (1, id) | EvDeliver OSrvIn id => (1, id)
-  | EvDeliver OCliTmp id => (2, id) | EvDeliver OHeld id => (3, id) | EvDeliver OLost id => (9, id)
+  | EvDeliver OCliTmp id => (2, id) | EvDeliver OHeld id => (3, id) | EvDeliver OCliNow id => (3, id)
+  | EvDeliver OLost id => (9, id)
   end.
 
 Fixpoint run_calls (c : conf) (f : flags) (s : st) (h : list call) : list (list (N * N) * table * N) :=
